@@ -1207,6 +1207,21 @@ class Interp:
                 return self.call_function(mf, a, "__module__")
             finally:
                 self._stack.pop()
+        # … or a function of a module of the analysed package called through the module's imported name (`pathu.split_mark(…)`)
+        if (self.auto_private and isinstance(recv, Residual) and self._fi_stack and self.idx is not None and len(self._stack) < 12
+                and (self._fi_stack[-1].file, recv.text) in getattr(self.idx, "module_aliases", {})):
+            mrel = self.idx.module_aliases[(self._fi_stack[-1].file, recv.text)]
+            mf = self.idx.module_funcs.get((mrel, meth))
+            if mf is not None:
+                a = dict(kwargs)
+                a["__pos__"] = args
+                if any(isinstance(n, (ast.Yield, ast.YieldFrom)) for n in ast.walk(mf.node)):
+                    return GenV(self, lambda fi=mf, a=a: self.call_function(fi, a, "__module__"))
+                self._stack.append(meth)
+                try:
+                    return self.call_function(mf, a, "__module__")
+                finally:
+                    self._stack.pop()
         # … or a module-level function of the analysed package called by its bare name (imported helper): follow it too
         if self.auto_private and recv is None and isinstance(f, ast.Name) and meth not in frame and self.idx is not None and len(self._stack) < 12:
             cands = [v for (rel, nm), v in getattr(self.idx, "module_funcs", {}).items() if nm == meth and not rel.startswith("csvpath/cli/")]
